@@ -32,6 +32,8 @@ mod env;
 mod env;
 #[cfg(feature = "model")]
 mod hook;
+#[cfg(not(feature = "model"))]
+mod refimpl;
 use env::SymRng;
 
 pub fn ext_degree(x: usize) -> ExtensionDegree {
@@ -372,6 +374,19 @@ pub fn run_verify(
     proofs: &[RistrettoRangeProof],
 ) -> Vec<Value> {
     let mut verify_out = Vec::new();
+    #[cfg(not(feature = "model"))]
+    let reference: Vec<Value> = vtranscripts
+        .iter()
+        .zip(statements.iter())
+        .zip(proofs.iter())
+        .map(|((t, s), p)| match catch_unwind(AssertUnwindSafe(|| refimpl::reference_verify(t, s, &p.to_bytes()))) {
+            Ok(Some(b)) => json!(b),
+            Ok(None) => json!("malformed"),
+            Err(_) => json!("panic"),
+        })
+        .collect();
+    #[cfg(feature = "model")]
+    let reference: Vec<Value> = Vec::new();
     let actions: Vec<String> = match cfg["actions"].as_array() {
         Some(a) => a.iter().map(|v| v.as_str().unwrap().to_string()).collect(),
         None => vec![cfg["action"].as_str().unwrap_or("VerifyOnly").to_string()],
@@ -396,7 +411,8 @@ pub fn run_verify(
             .collect();
         match r {
             Ok(res) => {
-                let mut o = json!({"action":act,"result": err_json(&res), "events":[ev0,ev1], "logs_after":logs_after,"work":w1-w0});
+                let mut o = json!({"action":act,"result": err_json(&res), "events":[ev0,ev1], "logs_after":logs_after,"work":w1-w0,
+                    "reference": reference});
                 if let Ok(masks) = res {
                     o["n_results"] = json!(masks.len());
                     o["masks"] = masks_json(&masks);
